@@ -462,3 +462,67 @@ def counting_loop(fn, L):
     if start_node is None:
         return None
     return dict(var=iv, start=fn.const_value(start_node), start_node=start_node, step=steps[0], cond=cond, op=op, bound=bound)
+
+
+def deep_calls(fn, match, depth=2):
+    """call nodes of `fn` that perform a call matched by match(f, node) either themselves or, for a resolved
+    non-virtual helper, on every normal path through the helper (so `helper(); ` stands for the call it wraps)"""
+    P = getattr(fn, 'P', None)
+    memo = {}
+
+    def always(g, d):
+        if g.id in memo:
+            return memo[g.id]
+        memo[g.id] = False
+        ev = sites(g, d)
+        memo[g.id] = bool(ev) and always_before_exit(g, ev)
+        return memo[g.id]
+
+    def sites(f, d):
+        out = []
+        for i in f.calls():
+            if match(f, i):
+                out.append(i)
+                continue
+            n = f.N(i)
+            if d > 0 and P is not None and n.get('callee') and not n.get('virt'):
+                g = P.fns.get(n['callee'])
+                if g is not None and g.entry is not None and g is not f and always(g, d - 1):
+                    out.append(i)
+        return out
+    return sites(fn, depth)
+
+
+def emptiness(fn, atom, pol):
+    """if the fact (atom evaluated to pol) says that a container is empty / non-empty, return (member call node, is_empty):
+    x.empty() | x.size()==0 | x.size()!=0 | x.size()>0 | x.size()<1 | 0==x.size() ...; the call node identifies the container"""
+    n = fn.N(atom)
+    if n['k'] == 'CXXMemberCallExpr' and short_of(fn.callee(atom)) == 'empty':
+        return (atom, bool(pol))
+    if n['k'] == 'CXXMemberCallExpr' and short_of(fn.callee(atom)) in ('size', 'length'):
+        return (atom, not pol)          # if(x.size()) ...
+    if n['k'] == 'BinaryOperator' and n.get('op') in ('==', '!=', '<', '<=', '>', '>='):
+        l, r = fn.strip(n['ch'][0]), fn.strip(n['ch'][1])
+        op = n['op']
+        if fn.N(r)['k'] == 'CXXMemberCallExpr':
+            l, r = r, l
+            op = {'<': '>', '<=': '>=', '>': '<', '>=': '<=', '==': '==', '!=': '!='}[op]
+        if fn.N(l)['k'] != 'CXXMemberCallExpr' or short_of(fn.callee(l)) not in ('size', 'length'):
+            return None
+        c = fn.const_value(r)
+        if c is None:
+            return None
+        # size() op c   (size() is unsigned)
+        if (op, c) in (('==', 0), ('<', 1), ('<=', 0)):
+            return (l, bool(pol))
+        if (op, c) in (('!=', 0), ('>', 0), ('>=', 1)):
+            return (l, not pol)
+    return None
+
+
+def empty_gate(fn, objmatch=None, is_empty=True):
+    """gate edges on which a container (selected by objmatch(member call node)) is known to be empty / non-empty"""
+    def pred(atom, pol):
+        e = emptiness(fn, atom, pol)
+        return e is not None and e[1] == is_empty and (objmatch is None or objmatch(e[0]))
+    return fn.gate_edges(pred)
